@@ -395,6 +395,49 @@ func mbFailedConstruction() (map[string]string, []engine.Violation) {
 	return outcomes, out
 }
 
+// mbDestroyTwice: "destroying a buffer releases ITS mappings" — and nothing else. A is created and destroyed, B of the
+// same size is created (the kernel usually puts it where A was), A is destroyed a second time (a deferred Destroy
+// after an explicit one, say). B's two mappings must still be there, and still be the same memory.
+func mbDestroyTwice(req int) *engine.Violation {
+	a, err := sbytes.NewMirroredBuffer(req, false)
+	if err != nil {
+		engine.HarnessError("NewMirroredBuffer(%d): %v", req, err)
+	}
+	abase := uintptr(unsafe.Pointer(unsafe.SliceData(a.Claim(a.Size()))))
+	if err := a.Destroy(); err != nil {
+		return mbViol("mirrored.Destroy/error", "Destroy() = %v", err)
+	}
+	b, err := sbytes.NewMirroredBuffer(req, false)
+	if err != nil {
+		engine.HarnessError("NewMirroredBuffer(%d): %v", req, err)
+	}
+	defer b.Destroy()
+	size := b.Size()
+	bbase := uintptr(unsafe.Pointer(unsafe.SliceData(b.Claim(size))))
+	_ = a.Destroy() // the second Destroy of A: an error is fine, touching B is not
+	mapped := func(lo, hi uintptr) bool {
+		maps, _ := os.ReadFile("/proc/self/maps")
+		covered := lo
+		for _, line := range strings.Split(string(maps), "\n") {
+			var l, h uintptr
+			if _, err := fmt.Sscanf(line, "%x-%x", &l, &h); err == nil && l <= covered && covered < h {
+				covered = h
+			}
+		}
+		return covered >= hi
+	}
+	if !mapped(bbase, bbase+uintptr(2*size)) {
+		return mbViol("mirrored.Destroy/foreign-unmap", "A (%d bytes at %#x) was destroyed, B (same size) was created at %#x, A was destroyed again: B's mappings [%#x,%#x) are no longer all mapped", size, abase, bbase, bbase, bbase+uintptr(2*size))
+	}
+	c := b.Claim(size)
+	c[0], c[size-1] = 0x5A, 0xA5
+	win := unsafe.Slice((*byte)(unsafe.Pointer(bbase)), 2*size)
+	if win[size] != 0x5A || win[2*size-1] != 0xA5 {
+		return mbViol("mirrored.Destroy/foreign-unmap", "after A's second Destroy, B's second mapping no longer mirrors its first")
+	}
+	return nil
+}
+
 func mbRequests(tier string) []int {
 	p := syscall.Getpagesize()
 	if tier == "thorough" {
@@ -423,6 +466,10 @@ func C11(tier string) *engine.Report {
 			v.Config = fmt.Sprintf("lifecycle,request=%d", req)
 			rep.Add(*v)
 		}
+		if v := mbDestroyTwice(req); v != nil {
+			v.Config = fmt.Sprintf("destroytwice,request=%d", req)
+			rep.Add(*v)
+		}
 	}
 	nc, vs := mbFailedConstruction()
 	for _, v := range vs {
@@ -431,13 +478,17 @@ func C11(tier string) *engine.Report {
 	rep.Coverage["constructions_refused_or_huge"] = nc
 	tot.Fill(rep, "reachable states of a real MirroredBuffer per requested size (1-6/8 pages and three sizes that are rounded up) under Claim/Commit/Consume with amounts on the half-page grid, size+1 and "+
 		"at most K odd amounts {1,u+1,size-1}, and Reset, BFS to fixpoint; state = implementation integers + model (head,used) + odd amounts spent; claims are judged by address against the ring model, "+
-		"filled with tags and read back through both mappings; plus one create/use/Destroy lifecycle per size checked against /proc/self/maps and the backing file; plus 10 constructions with invalid, huge (2^36..2^62, refused by the kernel at the reservation or granted and destroyed) sizes checked against the descriptor census, /dev/shm and the mappings")
+		"filled with tags and read back through both mappings; plus one create/use/Destroy lifecycle per size checked against /proc/self/maps and the backing file, and one destroy-A, create-B, destroy-A-again sequence per size (B keeps both mappings); plus 10 constructions with invalid, huge (2^36..2^62, refused by the kernel at the reservation or granted and destroyed) sizes checked against the descriptor census, /dev/shm and the mappings")
 	rep.Coverage["lifecycles"] = len(mbRequests(tier))
 	return rep
 }
 
 func C11Replay(v engine.Violation, log func(string)) *engine.Violation {
 	var req, odd int
+	if strings.HasPrefix(v.Config, "destroytwice") {
+		fmt.Sscanf(v.Config, "destroytwice,request=%d", &req)
+		return mbDestroyTwice(req)
+	}
 	if strings.HasPrefix(v.Config, "lifecycle") {
 		fmt.Sscanf(v.Config, "lifecycle,request=%d", &req)
 		return mbLifecycle(req)
